@@ -4,14 +4,16 @@
 //! Two kinds of cases share the stream (cfg `k=`):
 //!
 //! `case <id> k=tx medium=ip|eth mtu=<n> fbuf=<FRAGMENTATION_BUFFER_SIZE> socks=<n> kinds=<u|i|r per socket>`
-//!     send <sock> <hex IP payload>      the application queues that datagram on socket <sock>
+//!     send <sock> <hex IP payload> [nb] the application queues that datagram on socket <sock>, destination = neighbour nb (0/1, default 0)
 //!                                       (u: UDP header+data, i: ICMP echo request, r: raw proto 253)
-//!     echo <hex reply IP payload> <hex request IP payload>
-//!                                       an echo request from the peer is put into the device rx queue
+//!     echo <hex reply IP payload> <hex request IP payload> [nb]
+//!                                       an echo request from neighbour nb is put into the device rx queue
 //!     poll <budget>                     Interface::poll with the device accepting <budget> frames (-1: no limit)
 //!   observation per poll: one line per emitted IPv4 packet
-//!     tx f<k> <offset> <mf> <payload len> <fnv32 of payload>     (k = order of first appearance of the ident)
-//!     tx nf 0 0 <payload len> <fnv32>                             (unfragmented packet)
+//!     tx f<k> <offset> <mf> <payload len> <fnv32 of payload> to=<l>  (k = order of first appearance of the ident)
+//!     tx nf 0 0 <payload len> <fnv32> to=<l>                         (unfragmented packet)
+//!   l = link-layer destination: on Ethernet the neighbour (1/2) owning the frame's destination MAC (99: none),
+//!   on Medium::Ip the neighbour owning the IP destination.
 //!   then `p`.
 //!
 //! `case <id> k=rx medium=ip|eth slots=<REASSEMBLY_BUFFER_COUNT> segs=<ASSEMBLER_MAX_SEGMENT_COUNT> timeout=<ms>`
@@ -40,6 +42,17 @@ const LOCAL2: [u8; 4] = [10, 0, 1, 1];
 const PEER: [u8; 4] = [10, 0, 0, 2];
 const LOCAL_MAC: [u8; 6] = [2, 0, 0, 0, 0, 1];
 const PEER_MAC: [u8; 6] = [2, 0, 0, 0, 0, 2];
+const PEER2: [u8; 4] = [10, 0, 0, 3];
+const PEER2_MAC: [u8; 6] = [2, 0, 0, 0, 0, 3];
+/// the neighbours: (IP address, hardware address); ops name them by index (default 0)
+const NB: [([u8; 4], [u8; 6]); 2] = [(PEER, PEER_MAC), (PEER2, PEER2_MAC)];
+/// link-layer destination id used in observations: neighbour index + 1; 99 = none of them
+fn link_id_of_mac(m: &[u8]) -> usize {
+    NB.iter().position(|(_, mac)| mac == m).map(|i| i + 1).unwrap_or(99)
+}
+fn link_id_of_ip(a: &[u8; 4]) -> usize {
+    NB.iter().position(|(ip, _)| ip == a).map(|i| i + 1).unwrap_or(99)
+}
 
 // ---------------------------------------------------------------- own wire code
 fn cksum_acc(mut acc: u32, data: &[u8]) -> u32 {
@@ -232,12 +245,14 @@ fn tx_world(c: &Case) -> TxWorld {
     }
     if eth {
         // teach the neighbor cache the peer's address: ARP request from the peer, reply drained
-        let mut arp = vec![0, 1, 8, 0, 6, 4, 0, 1];
-        arp.extend_from_slice(&PEER_MAC);
-        arp.extend_from_slice(&PEER);
-        arp.extend_from_slice(&[0; 6]);
-        arp.extend_from_slice(&LOCAL);
-        dev.rx.push_back(eth_frame([0xff; 6], PEER_MAC, 0x0806, &arp));
+        for (ip, mac) in NB {
+            let mut arp = vec![0, 1, 8, 0, 6, 4, 0, 1];
+            arp.extend_from_slice(&mac);
+            arp.extend_from_slice(&ip);
+            arp.extend_from_slice(&[0; 6]);
+            arp.extend_from_slice(&LOCAL);
+            dev.rx.push_back(eth_frame([0xff; 6], mac, 0x0806, &arp));
+        }
         iface.poll(Instant::ZERO, &mut dev, &mut sockets);
         dev.drain_tx();
     }
@@ -246,9 +261,10 @@ fn tx_world(c: &Case) -> TxWorld {
 
 impl TxWorld {
     /// returns false if the socket refused the datagram
-    fn send(&mut self, i: usize, ipp: &[u8]) -> bool {
+    fn send(&mut self, i: usize, ipp: &[u8], nb: usize) -> bool {
         let (k, h) = self.handles[i];
-        let peer = IpAddress::v4(PEER[0], PEER[1], PEER[2], PEER[3]);
+        let a = NB[nb].0;
+        let peer = IpAddress::v4(a[0], a[1], a[2], a[3]);
         match k {
             'u' => {
                 let dport = u16::from_be_bytes([ipp[2], ipp[3]]);
@@ -256,30 +272,31 @@ impl TxWorld {
             }
             'i' => self.sockets.get_mut::<icmp::Socket>(h).send_slice(ipp, peer).is_ok(),
             _ => {
-                let pkt = ipv4_packet(LOCAL, PEER, 253, 0, false, 0, ipp);
+                let pkt = ipv4_packet(LOCAL, a, 253, 0, false, 0, ipp);
                 self.sockets.get_mut::<raw::Socket>(h).send_slice(&pkt).is_ok()
             }
         }
     }
-    fn echo(&mut self, req: &[u8]) {
+    fn echo(&mut self, req: &[u8], nb: usize) {
         self.echo_ident = self.echo_ident.wrapping_add(1);
-        let ip = ipv4_packet(PEER, LOCAL, 1, self.echo_ident, false, 0, req);
-        self.dev.rx.push_back(wrap(self.eth, ip));
+        let ip = ipv4_packet(NB[nb].0, LOCAL, 1, self.echo_ident, false, 0, req);
+        self.dev.rx.push_back(if self.eth { eth_frame(LOCAL_MAC, NB[nb].1, 0x0800, &ip) } else { ip });
     }
-    /// one Interface::poll; returns the emitted frames with the link header removed
-    fn poll(&mut self, budget: i64) -> Vec<Vec<u8>> {
+    /// one Interface::poll; returns (link-layer destination id, emitted frame with the link header removed)
+    fn poll(&mut self, budget: i64) -> Vec<(usize, Vec<u8>)> {
         self.dev.tx_budget = if budget < 0 { None } else { Some(budget as usize) };
         self.now_ms += 1;
         self.iface.poll(Instant::from_millis(self.now_ms), &mut self.dev, &mut self.sockets);
         let mut out = vec![];
         for f in self.dev.drain_tx() {
             if self.eth {
-                if f.len() < 14 || f[0..6] != PEER_MAC || f[6..12] != LOCAL_MAC || f[12..14] != [8, 0] {
+                if f.len() < 14 || f[6..12] != LOCAL_MAC || f[12..14] != [8, 0] {
                     self.bad_link.push(hex(&f[..14.min(f.len())]));
                 }
-                out.push(f[14.min(f.len())..].to_vec());
+                out.push((link_id_of_mac(&f[0..6.min(f.len())]), f[14.min(f.len())..].to_vec()));
             } else {
-                out.push(f);
+                let l = if f.len() >= 20 { link_id_of_ip(&[f[16], f[17], f[18], f[19]]) } else { 99 };
+                out.push((l, f));
             }
         }
         out
@@ -364,13 +381,13 @@ fn run_case(c: &Case, out: &mut dyn Write) {
                 let t: Vec<&str> = op.split_whitespace().collect();
                 match t[0] {
                     "send" => {
-                        if !w.send(t[1].parse().unwrap(), &unhex(t[2])) {
+                        if !w.send(t[1].parse().unwrap(), &unhex(t[2]), t.get(3).map_or(0, |x| x.parse().unwrap())) {
                             writeln!(out, "send-refused").unwrap();
                         }
                     }
-                    "echo" => w.echo(&unhex(t[2])),
+                    "echo" => w.echo(&unhex(t[2]), t.get(3).map_or(0, |x| x.parse().unwrap())),
                     "poll" => {
-                        for f in w.poll(t[1].parse().unwrap()) {
+                        for (l, f) in w.poll(t[1].parse().unwrap()) {
                             match parse_ipv4(&f) {
                                 Ok(p) => {
                                     if p.mf || p.off != 0 {
@@ -381,9 +398,9 @@ fn run_case(c: &Case, out: &mut dyn Write) {
                                                 idents.len() - 1
                                             }
                                         };
-                                        writeln!(out, "tx f{} {} {} {} {:08x}", k, p.off, p.mf as u8, p.payload.len(), fnv(&p.payload)).unwrap();
+                                        writeln!(out, "tx f{} {} {} {} {:08x} to={}", k, p.off, p.mf as u8, p.payload.len(), fnv(&p.payload), l).unwrap();
                                     } else {
-                                        writeln!(out, "tx nf 0 0 {} {:08x}", p.payload.len(), fnv(&p.payload)).unwrap();
+                                        writeln!(out, "tx nf 0 0 {} {:08x} to={}", p.payload.len(), fnv(&p.payload), l).unwrap();
                                     }
                                 }
                                 Err(e) => writeln!(out, "tx malformed {}", e).unwrap(),
@@ -451,20 +468,21 @@ fn gen_tx(rng: &mut Rng, id: String, tier: &str) -> TxGen {
                 seq += 1;
                 let req = icmp_echo(8, 0x4242, seq, &data);
                 let reply = icmp_echo(0, 0x4242, seq, &data);
-                ops.push(format!("echo {} {}", hex(&reply), hex(&req)));
+                ops.push(format!("echo {} {} {}", hex(&reply), hex(&req), rng.below(2)));
                 nfrags_total += l / maxfrag + 2;
             } else {
                 let i = rng.below(nsock as u64) as usize;
                 let l = pick_len(rng);
+                let nb = if rng.chance(1, 3) { 1 } else { 0 };
                 let ipp = match kv[i] {
-                    'u' => udp_ip_payload(LOCAL, PEER, 1000 + i as u16, 2000 + i as u16, &content(rng, l - 8)),
+                    'u' => udp_ip_payload(LOCAL, NB[nb].0, 1000 + i as u16, 2000 + i as u16, &content(rng, l - 8)),
                     'i' => {
                         seq += 1;
                         icmp_echo(8, 0x100 + i as u16, seq, &content(rng, l - 8))
                     }
                     _ => content(rng, l),
                 };
-                ops.push(format!("send {} {}", i, hex(&ipp)));
+                ops.push(format!("send {} {} {}", i, hex(&ipp), nb));
                 nfrags_total += l / maxfrag + 2;
             }
         }
@@ -692,8 +710,8 @@ fn oracle_tx(c: &Case, fails: &mut Vec<String>, st: &mut Stats) {
     let fbuf = c.get_i("fbuf", FRAGMENTATION_BUFFER_SIZE as i64) as usize;
     let ipmtu = if w.eth { w.mtu - 14 } else { w.mtu };
     let mut fail = |class: &str, why: String| fails.push(format!("{} :: case {}: {}", class, c.id, why));
-    // datagrams handed to the stack and not yet seen on the wire: (payload, from_socket)
-    let mut pending: Vec<(Vec<u8>, bool)> = vec![];
+    // datagrams handed to the stack and not yet seen on the wire: (payload, from_socket, neighbour)
+    let mut pending: Vec<(Vec<u8>, bool, usize)> = vec![];
     // the fragment train being received by the independent reassembler: (ident, bytes so far)
     let mut cur: Option<(u16, Vec<u8>)> = None;
     let mut cur_hdr: Option<([u8; 4], [u8; 4], u8)> = None;
@@ -703,9 +721,10 @@ fn oracle_tx(c: &Case, fails: &mut Vec<String>, st: &mut Stats) {
         match t[0] {
             "send" => {
                 let ipp = unhex(t[2]);
-                if w.send(t[1].parse().unwrap(), &ipp) {
+                let nb: usize = t.get(3).map_or(0, |x| x.parse().unwrap());
+                if w.send(t[1].parse().unwrap(), &ipp, nb) {
                     if ipp.len() + 20 <= fbuf || ipp.len() + 20 <= ipmtu {
-                        pending.push((ipp, true));
+                        pending.push((ipp, true, nb));
                     } else {
                         bump(st, "tx_larger_than_frag_buffer");
                     }
@@ -714,15 +733,16 @@ fn oracle_tx(c: &Case, fails: &mut Vec<String>, st: &mut Stats) {
                 }
             }
             "echo" => {
-                w.echo(&unhex(t[2]));
+                let nb: usize = t.get(3).map_or(0, |x| x.parse().unwrap());
+                w.echo(&unhex(t[2]), nb);
                 let reply = unhex(t[1]);
                 if reply.len() + 20 <= fbuf || reply.len() + 20 <= ipmtu {
-                    pending.push((reply, false));
+                    pending.push((reply, false, nb));
                 }
             }
             "poll" => {
                 let frames = w.poll(t[1].parse().unwrap());
-                for f in frames {
+                for (link, f) in frames {
                     bump(st, "tx_frames");
                     if f.len() > ipmtu {
                         fail("fragment-exceeds-mtu", format!("op#{} {} bytes, ip mtu {}", opi, f.len(), ipmtu));
@@ -734,8 +754,15 @@ fn oracle_tx(c: &Case, fails: &mut Vec<String>, st: &mut Stats) {
                             continue;
                         }
                     };
+                    // the frame must be addressed, on the link, to the neighbour that owns the IP destination:
+                    // only then does that neighbour see (and can reassemble) it
+                    let nbr = link_id_of_ip(&p.dst);
+                    if nbr == 99 || link != nbr {
+                        fail("fragment-to-wrong-link-address", format!("op#{} ident {} off {}: IP destination {:?} (neighbour {}) but link-layer destination is neighbour {}", opi, p.ident, p.off, p.dst, nbr, link));
+                    }
+                    let nbr = nbr.wrapping_sub(1);
                     if !(p.mf || p.off != 0) {
-                        match pending.iter().position(|(d, _)| *d == p.payload) {
+                        match pending.iter().position(|(d, _, n)| *d == p.payload && *n == nbr) {
                             Some(i) => {
                                 pending.remove(i);
                                 bump(st, "tx_whole_datagrams");
@@ -759,7 +786,7 @@ fn oracle_tx(c: &Case, fails: &mut Vec<String>, st: &mut Stats) {
                         cur = Some((p.ident, vec![]));
                         cur_hdr = Some((p.src, p.dst, p.proto));
                     }
-                    if cur_hdr.is_some_and(|h| h != (p.src, p.dst, p.proto)) || p.src != LOCAL || p.dst != PEER {
+                    if cur_hdr.is_some_and(|h| h != (p.src, p.dst, p.proto)) || p.src != LOCAL {
                         fail("fragment-header-fields-differ", format!("op#{} ident {} off {}: {:?}->{:?} proto {}", opi, p.ident, p.off, p.src, p.dst, p.proto));
                     }
                     match &mut cur {
@@ -767,7 +794,7 @@ fn oracle_tx(c: &Case, fails: &mut Vec<String>, st: &mut Stats) {
                             got.extend_from_slice(&p.payload);
                             if !p.mf {
                                 let (_, whole) = cur.take().unwrap();
-                                match pending.iter().position(|(d, _)| *d == whole) {
+                                match pending.iter().position(|(d, _, n)| *d == whole && *n == nbr) {
                                     Some(i) => {
                                         pending.remove(i);
                                         bump(st, "tx_trains_complete");
@@ -794,7 +821,7 @@ fn oracle_tx(c: &Case, fails: &mut Vec<String>, st: &mut Stats) {
     if let Some((id, got)) = &cur {
         fail("fragment-train-incomplete", format!("train ident {} stops after {} bytes although the interface was polled until idle", id, got.len()));
     }
-    for (d, from_socket) in &pending {
+    for (d, from_socket, _) in &pending {
         if *from_socket {
             fail("socket-datagram-not-transmitted", format!("{} byte datagram queued on a socket never appeared on the wire", d.len()));
         } else {
@@ -996,6 +1023,14 @@ fn main() {
             ops.push(format!("echo {} {}", hex(&icmp_echo(0, 0x4242, 2, &data)), hex(&icmp_echo(8, 0x4242, 2, &data))));
             ops.extend(polls(-1, 4));
             v.push(mk("stale-buffer-echo-reply-checksum", "ip", 576, "u", ops));
+            // Ethernet, two neighbours: datagram to neighbour 0 mid-fragmentation under back-pressure, an
+            // oversized ping from neighbour 1 (its reply is dropped): the rest of the train must still go to 0
+            let data: Vec<u8> = (0..1000).map(|i| (i * 11 + 5) as u8).collect();
+            let mut ops = vec![format!("send 0 {} 0", udp(0, 0x66, 1400)), "poll 1".into()];
+            ops.push(format!("echo {} {} 1", hex(&icmp_echo(0, 0x4242, 3, &data)), hex(&icmp_echo(8, 0x4242, 3, &data))));
+            ops.extend(polls(1, 2));
+            ops.extend(polls(-1, 4));
+            v.push(mk("dropped-reply-must-not-redirect-train-in-flight", "eth", 576, "u", ops));
             for c in v {
                 if tier == "quick" || tier == c.id {
                     c.write(&mut out);
